@@ -24,6 +24,8 @@ ORACLES = {
         'emit::determine_binop_plan': ['incan::binop_plan'], 'emit::emit_binop_token': ['incan::binop_plan'],
         'emit::emit_binop_expr': ['incan::emit_division'], 'emit::NumericConversion::apply': ['incan::emit_division'],
         'parser::compound_assignment(field)': ['incan::emit_division'], 'parser::compound_assignment(index)': ['incan::emit_division'],
+        'emit::emit_stmt(Expr)': ['incan::emit_division'], 'emit::emit_builtin_call(Int)': ['incan::emit_division'], 'emit::emit_builtin_call(Float)': ['incan::emit_division'],
+        'lowering::lower_statement(CompoundAssignment)': ['incan::emit_division'], 'lowering::lower_expr(Binary)': ['incan::emit_division'],
         '*': ['core::py_mod_i64_impl', 'core::py_floor_div_i64_impl', 'stdlib::py_mod_i64', 'stdlib::py_floor_div_i64', 'stdlib::py_mod',
               'stdlib::py_floor_div', 'stdlib::py_div', 'core::py_mod_f64_impl', 'stdlib::py_mod_f64', 'stdlib::py_floor_div_f64',
               'incan::binop_plan', 'incan::emit_division'],
@@ -63,7 +65,7 @@ ORACLES = {
         'lowering::lower_statement(CompoundAssignment)': ['incan::emit_promotion', 'incan::compound_assign'],
         'lowering::lower_expr(Binary)': ['incan::emit_promotion', 'incan::static_type'],
         'checker::types_compatible(int/float)': ['incan::static_type'], 'checker::check_return': ['incan::static_type'], 'checker::eval_const_expr(arithmetic)': ['incan::static_type'], 'checker::check_assignment': ['incan::static_type'],
-        '*': ['core::policy', 'incan::exponent_kind', 'incan::binop_plan', 'incan::static_type', 'incan::emit_promotion', 'incan::static_type_nested', 'incan::compound_assign'],
+        '*': ['core::policy', 'incan::exponent_kind', 'incan::binop_plan', 'incan::static_type', 'incan::emit_promotion', 'incan::static_type_nested', 'incan::compound_assign', 'incan::emit_division', 'incan::static_type_sources'],
     },
     'C19': {
         'lsp::offset_to_position': ['lsp::offset_to_position', 'lsp::round_trip', 'lsp::monotone', 'lsp::span_to_range'],
@@ -71,7 +73,7 @@ ORACLES = {
         'lsp::span_to_range': ['lsp::span_to_range'],
         'syntax::get_line_info': ['syntax::get_line_info'],
         'lsp::compile_error_to_diagnostic': ['lsp::diagnostic_range'],
-        '*': ['lsp::offset_to_position', 'lsp::round_trip', 'lsp::position_to_offset', 'lsp::monotone', 'lsp::span_to_range', 'syntax::get_line_info', 'lsp::diagnostic_range', 'lsp::server_ranges', 'incan::fmt_error_location', 'lsp::published_ranges', 'lsp::dependency_ranges'],
+        '*': ['lsp::offset_to_position', 'lsp::round_trip', 'lsp::position_to_offset', 'lsp::monotone', 'lsp::span_to_range', 'syntax::get_line_info', 'lsp::diagnostic_range', 'lsp::server_ranges', 'incan::fmt_error_location', 'lsp::published_ranges', 'lsp::dependency_ranges', 'lsp::pipe_ranges'],
     },
 }
 
